@@ -43,6 +43,7 @@ type Config struct {
 	AlwaysResub       bool   `json:"always_resub,omitempty"`
 	DirectQoS0        bool   `json:"direct_qos0,omitempty"`
 	MaxPayloadLen     int    `json:"max_payload,omitempty"`
+	EarlyConnAck      bool   `json:"early_connack,omitempty"`    // the peer sends an accepting CONNACK before it has read the CONNECT (engine R only)
 	CloseErr          bool   `json:"close_err,omitempty"`        // Transport.Close() tears the connection down but returns an error (TLS close_notify to a dead peer, second close)
 	StateCBReenters   bool   `json:"statecb_reenters,omitempty"` // the application's ConnState callback looks at the client it is called for (Done())
 	OnErrorReenters   bool   `json:"onerror_reenters,omitempty"` // the application's OnError callback publishes a QoS 0 diagnostic through the same client
